@@ -88,7 +88,7 @@ func Spell(rng *rand.Rand, base, rel string) string {
 		if d == "." {
 			return "x/../" + rel // lexical only: Clean removes it before any syscall
 		}
-		return d + "/../" + rel
+		return d + "/../" + filepath.Base(d) + "/" + filepath.Base(rel) // a/b/../b/c for a/b/c
 	case 5:
 		return rel + "/"
 	}
